@@ -217,7 +217,9 @@ func lookupFunc(pkg *types.Package, target string) *types.Func {
 			return nil
 		}
 		recv := strings.TrimPrefix(t[1:i], "*")
+		targs := ""
 		if k := strings.Index(recv, "["); k >= 0 {
+			targs = recv[k+1 : len(recv)-1]
 			recv = recv[:k]
 		}
 		m := t[i+2:]
@@ -228,6 +230,28 @@ func lookupFunc(pkg *types.Package, target string) *types.Func {
 		named, ok := obj.Type().(*types.Named)
 		if !ok {
 			return nil
+		}
+		if targs != "" && named.TypeParams() != nil {
+			// instantiate when the arguments are concrete types of the package or universe
+			var tl []types.Type
+			concrete := true
+			for _, a := range strings.Split(targs, ",") {
+				a = strings.TrimSpace(a)
+				var o types.Object
+				if o = pkg.Scope().Lookup(a); o == nil {
+					o = types.Universe.Lookup(a)
+				}
+				if tn, ok := o.(*types.TypeName); ok {
+					tl = append(tl, tn.Type())
+				} else {
+					concrete = false
+				}
+			}
+			if concrete && len(tl) == named.TypeParams().Len() {
+				if inst, err := types.Instantiate(nil, named, tl, false); err == nil {
+					named = inst.(*types.Named)
+				}
+			}
 		}
 		for i := 0; i < named.NumMethods(); i++ {
 			if named.Method(i).Name() == m {
@@ -310,7 +334,8 @@ func genOverlay(p *packages.Package, con *Contracts, L *Loaded) (string, []strin
 	w("func __forall(f any) bool { return true }\n")
 	w("func __exists(f any) bool { return true }\n")
 	w("func __old[T any](x T) T { return x }\n")
-	w("func __trigger(x ...any) bool { return true }\n\n")
+	w("func __trigger(x ...any) bool { return true }\n")
+	w("func __has[K comparable, V any](m map[K]V, k K) bool { return true }\n\n")
 
 	for _, d := range con.Decls {
 		w("//origin %s %s (%s:%d)\n", d.Kind, d.Name, filepath.Base(d.File), d.Line)
@@ -408,7 +433,7 @@ func genOverlay(p *packages.Package, con *Contracts, L *Loaded) (string, []strin
 				// one function per lvalue, returning (base, index) as interfaces
 				lvs := splitTop(cl.Text, ",")
 				ps := append(append([]string{}, params...), results...)
-				w("%sfunc %s%s(%s) (r []any) {\n", origin, cl.FuncName, tparams, strings.Join(ps, ", "))
+				w("%sfunc %s%s(%s) (__r []any) {\n", origin, cl.FuncName, tparams, strings.Join(ps, ", "))
 				for _, lv := range lvs {
 					lv = strings.TrimSpace(lv)
 					if lv == "" || lv == "nothing" {
@@ -424,14 +449,14 @@ func genOverlay(p *packages.Package, con *Contracts, L *Loaded) (string, []strin
 						i := lastOpen(lv)
 						b, idx := lv[:i], lv[i+1:len(lv)-1]
 						if strings.TrimSpace(idx) == "*" {
-							w("\tr = append(r, \"all\", any(%s))\n", b)
+							w("\t__r = append(__r, \"all\", any(%s))\n", b)
 						} else if k := indexTop(idx, ".."); k >= 0 {
-							w("\tr = append(r, \"range\", any(%s), any(%s), any(%s))\n", b, idx[:k], idx[k+2:])
+							w("\t__r = append(__r, \"range\", any(%s), any(%s), any(%s))\n", b, idx[:k], idx[k+2:])
 						} else {
-							w("\tr = append(r, \"index\", any(%s), any(%s))\n", b, idx)
+							w("\t__r = append(__r, \"index\", any(%s), any(%s))\n", b, idx)
 						}
 					} else {
-						w("\tr = append(r, \"addr\", any(&%s))\n", lv)
+						w("\t__r = append(__r, \"addr\", any(&%s))\n", lv)
 					}
 				}
 				w("\treturn\n}\n")
